@@ -400,8 +400,9 @@ def main():
             samples=samples,
             exhaustive=True,
             exhaustive_note=("O-1 enumerates completely: n=1..8 x every first-difference position x all 65536 byte pairs there (%d cases), x4 bos modes x2 placements; "
+                             "every single-bit difference for n=1..160 and 15 sizes up to 4096 (%d cases) under six placement/alignment pairs; "
                              "random n<=4096 and all of O-2 are sampled/enumerated over the stated lattice only, contents there are covered symbolically by memcheck's "
-                             "definedness tracking (one run per shape stands for all contents as far as branches and addresses are concerned)" % o1stat.get("exhaustive_cases", 0)),
+                             "definedness tracking (one run per shape stands for all contents as far as branches and addresses are concerned)" % (o1stat.get("exhaustive_cases", 0), o1stat.get("single_bit_cases", 0))),
             o1=dict(o1stat, wall_s=round(o1wall, 1), bos_modes=4, placements=2, functions=2),
             o2=dict(variants=len(VARIANTS), evaluations=o2_evals, nontrivial=o2_nontriv, per_variant=per_variant, params=params,
                     trivial_void_controls=sum(r["stat"].get("leaky_dead", 0) for r in ok2) + sum(r["stat"]["evaluations"] - r["stat"]["leaky_cases"] for r in ok2)),
